@@ -45,6 +45,8 @@ pub struct Graph {
     /// the nodes are spread over two modules that repeat each other's simple names (M1::N0, M2::N0,
     /// M1::N1, ...) and refer to each other by globally qualified names
     pub two_modules: bool,
+    /// the fields (enumerators) of every node are written in the reverse order of their targets
+    pub reverse: bool,
 }
 
 fn wrap(target: &str, wrapper: usize, aliases: &mut Vec<DefM>, two_modules: bool) -> TypeM {
@@ -84,7 +86,10 @@ pub fn graph_program(g: &Graph) -> (Program, BTreeMap<String, (usize, usize)>) {
     let mut aliases: Vec<DefM> = Vec::new();
     let mut fields_of: BTreeMap<String, (usize, usize)> = BTreeMap::new();
     for i in 0..g.n {
-        let out: Vec<&(usize, usize, usize)> = g.edges.iter().filter(|e| e.0 == i).collect();
+        let mut out: Vec<&(usize, usize, usize)> = g.edges.iter().filter(|e| e.0 == i).collect();
+        if g.reverse {
+            out.reverse();
+        }
         let name = simple(i);
         let fi = file_of(i);
         let di = file_defs[fi].len();
@@ -350,6 +355,7 @@ pub fn small_graph(mut idx: u64) -> Graph {
         // an extra, sampled dimension (the enumeration itself is unchanged)
         leaf: (0..n).map(|i| (hash64(&("leaf", idx0, i)) % 4) as u8).collect(),
         two_modules: n >= 2 && hash64(&("two-modules", idx0)) % 2 == 1,
+        reverse: hash64(&("reverse", idx0)) % 2 == 1,
     }
 }
 
@@ -375,6 +381,7 @@ fn graph4(idx: u64) -> Graph {
         edges,
         leaf: (0..4).map(|i| (hash64(&("leaf4", idx, i)) % 4) as u8).collect(),
         two_modules: hash64(&("two-modules4", idx)) % 2 == 1,
+        reverse: hash64(&("reverse4", idx)) % 2 == 1,
     }
 }
 
@@ -395,6 +402,7 @@ fn random_graph(u: &mut Unstructured) -> Graph {
         edges,
         leaf: (0..n).map(|_| pick(u, 4) as u8).collect(),
         two_modules: pick(u, 2) == 1,
+        reverse: pick(u, 2) == 1,
     }
 }
 
@@ -656,7 +664,7 @@ impl Check for C05 {
             Family::bytes("random", 96, tier.pick(1_500, 40_000), move |cx, i| {
                 let mut u = Unstructured::new(i.bytes());
                 let g = random_graph(&mut u);
-                cx.set_key(&(g.n, &g.is_enum, &g.edges, &g.leaf, g.two_modules));
+                cx.set_key(&(g.n, &g.is_enum, &g.edges, &g.leaf, g.two_modules, g.reverse));
                 graph_case(cx, g)
             }),
             Family::enumerate("aliases", ALIAS_TOTAL, tier.pick(17, 1), alias_case),
